@@ -1956,18 +1956,33 @@ pub fn run_with_block(scn: &Scenario, cfg: &SimCfg, block_at: usize) -> SimOut {
     let mut first_event = 0;
     if scn.prologue & 128 != 0 && scn.prologue & 64 == 0 && scn.id_offset == 0 {
         sim.early_phase = true;
-        while first_event < scn.events.len() && first_event < 3 {
-            let Ev::Start { h, kind, .. } = &scn.events[first_event] else { break };
-            sim.w.tick();
-            let before = sim.w.ops.len();
-            sim.start(*h, *kind, false, false);
-            if sim.w.ops.len() > before {
-                sim.w.poll_op(before);
+        let mut started = 0;
+        while first_event < scn.events.len() && started < 3 {
+            match &scn.events[first_event] {
+                Ev::Start { h, kind, .. } => {
+                    sim.w.tick();
+                    let before = sim.w.ops.len();
+                    sim.start(*h, *kind, false, false);
+                    if sim.w.ops.len() > before {
+                        sim.w.poll_op(before);
+                    }
+                    started += 1;
+                }
+                Ev::CloneHandle => {
+                    let live = sim.w.live_handles();
+                    if let Some(&h) = live.first() {
+                        sim.w.clone_handle(h);
+                    }
+                }
+                _ => break,
             }
             first_event += 1;
         }
         sim.early_phase = false;
-        if first_event > 0 {
+        if started == 0 {
+            // nothing was issued early: the history runs as usual (clones made above stay)
+        }
+        if started > 0 {
             sim.stats.kinds.insert("issued-before-connect");
         }
     }
@@ -1989,7 +2004,7 @@ pub fn run_with_block(scn: &Scenario, cfg: &SimCfg, block_at: usize) -> SimOut {
         r.cap = cfg.read_cap as usize;
         r.yield_first = cfg.read_yield;
     }
-    if first_event > 0 {
+    if scn.prologue & 128 != 0 && scn.prologue & 64 == 0 && scn.id_offset == 0 {
         // only the handshake is skipped: the early requests were written when run() started
         sim.tr.skip_handshake(&mut sim.w);
         sim.mark_ctx_polled();
